@@ -472,6 +472,7 @@ func runC19(c *Ctx) {
 	runInventory(c, "O19", roots, kReasoned, map[string]string{"index": "O19.1", "slice": "O19.1", "assert": "O19.2", "niltype": "O19.2", "div": "O19.3", "size": "O19.4", "rand": "O19.4", "abort": "O19.6"})
 	c.Rule("O19.7", "failures are recorded and Shoot returns: no panic / Fatal / Exit site lies on any path after the exchange with the target returned")
 	c19Support(c)
+	c19PostprocessorBody(c)
 }
 
 // ---------- supporting obligations of reasoned entries ----------
@@ -1161,4 +1162,93 @@ func pkgOfFuncKey(k string) string {
 		return k[:i]
 	}
 	return k
+}
+
+// ---- O19.8: postprocessors always get a reader over the body that was read
+
+func c19PostprocessorBody(c *Ctx) {
+	c.Rule("O19.8", "a step with postprocessors reads the body, whatever the target sent: the reader handed to Postprocessor.Process is a *bytes.Reader, which is nil unless bytes.NewReader ran - so with postprocessors configured (len > 0) and no I/O error, every path from the response to each Process call passes exactly one bytes.NewReader whose result is that argument (a typed nil reader is not a nil interface: Process would dereference it on an empty 204/304/HEAD response and the shot panics)")
+	P := c.P
+	n := 0
+	for _, fn := range P.ProdFuncs() {
+		if !strings.HasPrefix(PkgOf(fn), Mod+"/components/guns") {
+			continue
+		}
+		EachInstr(fn, func(in ssa.Instruction) {
+			cc := CC(in)
+			if cc == nil || !cc.IsInvoke() || cc.Method.Name() != "Process" || len(cc.Args) != 2 {
+				return
+			}
+			// the reader argument: an io.Reader made from a pointer value
+			mi, ok := cc.Args[1].(*ssa.MakeInterface)
+			if !ok {
+				return
+			}
+			if _, isPtr := mi.X.Type().Underlying().(*types.Pointer); !isPtr {
+				return
+			}
+			n++
+			var procs ssa.Value // the collection of processors the call ranges over
+			for _, r := range Roots(cc.Value, true) {
+				if _, isSl := r.Type().Underlying().(*types.Slice); isSl {
+					procs = r
+				}
+				// the element of a ranged slice: *(&s[i])
+				if u, isU := r.(*ssa.UnOp); isU && u.Op == token.MUL {
+					if ia, isIA := u.X.(*ssa.IndexAddr); isIA {
+						if _, isSl := ia.X.Type().Underlying().(*types.Slice); isSl {
+							procs = ia.X
+						}
+					}
+				}
+			}
+			if os.Getenv("PV_DEBUG") != "" {
+				fmt.Fprintln(os.Stderr, "O19.8 procs", procs, "value", cc.Value, Roots(cc.Value, true))
+			}
+			sNewReader := Spec{"bytes", "", "NewReader"}
+			fromNew := DerivesAny(mi.X, false, func(v ssa.Value) bool {
+				cl, _ := CallOfValue(v)
+				return cl != nil && MatchCC(&cl.Call, sNewReader)
+			})
+			lenPos := func(v ssa.Value) bool {
+				b, ok := v.(*ssa.BinOp)
+				if !ok || procs == nil {
+					return false
+				}
+				f := Fact{Op: b.Op, X: b.X, Y: b.Y}.Canon() // X < / <= Y
+				k, isK := ConstInt(f.X)
+				return isK && f.Op == token.LSS && k == 0 && isLenCallOf(f.Y, procs)
+			}
+			errIsNil := func(op token.Token) func(ssa.Value) bool {
+				return func(v ssa.Value) bool {
+					b, ok := v.(*ssa.BinOp)
+					return ok && b.Op == op && IsNilConst(b.Y) && types.Identical(b.X.Type(), errType)
+				}
+			}
+			iv := PathQuery{Fn: fn, Shallow: true,
+				Stop: func(i2 ssa.Instruction) bool { return i2 == in },
+				Exit: func(*ssa.BasicBlock) bool { return false },
+				Assume: []Assumption{{Pred: lenPos, Val: true}, {Pred: errIsNil(token.EQL), Val: true}, {Pred: errIsNil(token.NEQ), Val: false}},
+				Weight: func(i2 ssa.Instruction) (int, int) {
+					if IsCall(i2, sNewReader) {
+						return 1, 1
+					}
+					return 0, 0
+				}}.Count()
+			c.Check(fromNew && procs != nil && !iv.NoPath && iv.Min >= 1, "O19.8", fk(fn)+":process-gets-the-read-body", in.Pos(),
+				fmt.Sprintf("the reader argument comes from bytes.NewReader: %v; bytes.NewReader calls on the paths to Process when there are postprocessors and no I/O error = %v (want at least 1 on every path); witness %s", fromNew, iv, PathString(iv.MinPath)))
+		})
+	}
+	c.Floor("O19.8", "Postprocessor.Process calls taking a pointer-backed reader", n, 1)
+}
+
+func isLenCallOf(v, coll ssa.Value) bool {
+	cl, ok := v.(*ssa.Call)
+	if !ok {
+		return false
+	}
+	if b, isB := cl.Call.Value.(*ssa.Builtin); !isB || b.Name() != "len" {
+		return false
+	}
+	return cl.Call.Args[0] == coll || sameRoots(cl.Call.Args[0], coll)
 }
